@@ -66,8 +66,6 @@ func Load(patterns []string, options ...func(c *packages.Config)) (*Universe, er
 			}
 		}
 
-		pkg := newPkg(p, u)
-
 		for k := range p.Imports {
 			importedPkg := p.Imports[k]
 
@@ -75,6 +73,10 @@ func Load(patterns []string, options ...func(c *packages.Config)) (*Universe, er
 				register(importedPkg)
 			}
 		}
+
+		// the imports of pkg are resolved from the universe,
+		// should after all imported pkgs registered
+		pkg := newPkg(p, u)
 
 		u.pkgs[p.PkgPath] = pkg
 
@@ -112,7 +114,10 @@ func Load(patterns []string, options ...func(c *packages.Config)) (*Universe, er
 	}
 
 	for i := range pkgs {
-		register(pkgs[i])
+		// may be registered as import of other entrypoint
+		if _, ok := u.pkgs[pkgs[i].PkgPath]; !ok {
+			register(pkgs[i])
+		}
 	}
 
 	u.localPkgPaths = localPkgPaths
